@@ -13,7 +13,8 @@ ID = 'C01'
 RULE = ('Hypothesis builds valid powertrains by construction (motor + 1..7 elements: flywheels, spur / helical '
         'pairs, worm matings in both orientations, joints; every quantity in a random unit of its kind), loads '
         'depending on time, speed and position (also above stall, either sign), initial conditions, and a '
-        'history (run | run + continued run | run, reset, rerun). After every history segment, for EVERY recorded '
+        'history (run | run + continued run | run, reset, rerun - also from other initial conditions; a dedicated part reruns '
+        'self-locking drives that ended held). After every history segment, for EVERY recorded '
         'instant and EVERY adjacent pair, position / speed / acceleration of the upstream element must equal the '
         'ratio (recomputed from teeth / starts in the case, not read from the library) times the downstream '
         'value (1e-9 relative). Non-trivial = at least one ratio != 1 and an instant with non-zero speed and '
@@ -52,7 +53,22 @@ def check(case) -> Result:
     return res
 
 
+@st.composite
+def s_held_rerun(draw, max_steps=30):
+    """self-locking drives under heavy load that tend to end a run held, then reset and rerun from OTHER initial
+    conditions with the same Solver: every element must follow the new position from the first instant on"""
+    from vp.props import c13 as C13
+    from vp import model as M
+    case = draw(C13.s_case(max_len=4, max_steps=max_steps))
+    run1 = case['history'][0]
+    mdl = M.Model(case)
+    case['history'] = [run1, {'op': 'reset', 'reinit': True, 'init': G.s_init(draw, mdl)},
+                       dict(run1, new_solver=draw(st.integers(0, 3)) == 0)]
+    return case
+
+
 def parts(tier):
     if tier == 'quick':
-        return [Part('chains', check, strategy=G.s_case(max_len=6, max_steps=30, nonmultiple=True), examples=350, shards=4)]
-    return [Part('chains', check, strategy=G.s_case(max_len=11, max_steps=120, nonmultiple=True), examples=2500, shards=16)]
+        return [Part('held-reruns', check, strategy=s_held_rerun(), examples=120, shards=4), Part('chains', check, strategy=G.s_case(max_len=6, max_steps=30, nonmultiple=True), examples=350, shards=4)]
+    return [Part('held-reruns', check, strategy=s_held_rerun(80), examples=1500, shards=4),
+            Part('chains', check, strategy=G.s_case(max_len=11, max_steps=120, nonmultiple=True), examples=2500, shards=12)]
